@@ -338,14 +338,14 @@ class C10World(World):
                       grad=sched.weighted(["no_grad", "grad", "inference"], [3, 2, 1]),
                       scale=data.pick([1.0, 1.0, 1.0, 0.01, 10.0]))
             if faulty and fault.chance(0.15):
-                op["interrupt"] = fault.randint(1, 30)
+                op["interrupt"] = fault.randint(1, 30 * (8 if self.cfg.get("opcode") else 1))
             elif faulty and fault.chance(0.08):
                 op["reject"] = fault.pick(["features", "dtype"])
         elif kind == "fwdbwd":
             op.update(x=data.seed30(), rows=data.pick([1, 2, 3]), dir=sched.pick(["forward", "inverse"]))
         elif kind in ("train", "eval", "double", "float"):
             if faulty and fault.chance(0.1):
-                op["interrupt"] = fault.randint(1, 6)
+                op["interrupt"] = fault.randint(1, 6 * (8 if self.cfg.get("opcode") else 1))
         elif kind == "use_cache":
             op["on"] = sched.chance(0.6)
         elif kind == "update":
